@@ -69,6 +69,41 @@ fn strip_ansi(s: &str) -> String {
     out
 }
 
+/// Rename SSA value names (`v<digits>v<digits>`) in order of first occurrence: the printer derives
+/// them from arena indices, which a re-parsed module does not share.
+fn rename_values(t: &str) -> String {
+    let b = t.as_bytes();
+    let mut out = String::with_capacity(t.len());
+    let mut map: std::collections::HashMap<&str, usize> = std::collections::HashMap::new();
+    let mut i = 0;
+    while i < b.len() {
+        let is_start = b[i] == b'v' && (i == 0 || !(b[i - 1].is_ascii_alphanumeric() || b[i - 1] == b'_'));
+        if is_start {
+            let mut j = i + 1;
+            while j < b.len() && b[j].is_ascii_digit() {
+                j += 1;
+            }
+            if j > i + 1 && j < b.len() && b[j] == b'v' {
+                let mut k = j + 1;
+                while k < b.len() && b[k].is_ascii_digit() {
+                    k += 1;
+                }
+                if k > j + 1 && (k == b.len() || !(b[k].is_ascii_alphanumeric() || b[k] == b'_')) {
+                    let n = map.len();
+                    let id = *map.entry(&t[i..k]).or_insert(n);
+                    out.push_str(&format!("%{id}"));
+                    i = k;
+                    continue;
+                }
+            }
+        }
+        let ch = t[i..].chars().next().unwrap();
+        out.push(ch);
+        i += ch.len_utf8();
+    }
+    out
+}
+
 fn word_bytes(w: u64) -> Vec<u8> {
     w.to_be_bytes().to_vec()
 }
@@ -216,11 +251,36 @@ fn main() {
                 let mut prev = prev.lock().unwrap_or_else(|e| e.into_inner());
                 let changed = *prev != text;
                 // print -> parse -> print, and verification of the parsed module
+                let mut rt_norm = false;
+                let mut rt_idem = String::from("n/a");
+                let mut rt_diff = String::new();
                 let (rt_parse, rt_same, rt_verify) = match std::panic::catch_unwind(std::panic::AssertUnwindSafe(|| {
                     sway_ir::parser::parse(&text, ir.source_engine, ir.experimental, ir.backtrace)
                 })) {
                     Ok(Ok(mut ir2)) => {
                         let t2 = sway_ir::printer::to_string(&ir2);
+                        let (n1, n2) = (rename_values(&text), rename_values(&t2));
+                        rt_norm = n1 == n2;
+                        if !rt_norm {
+                            for (a, b) in n1.lines().zip(n2.lines()) {
+                                if a != b {
+                                    rt_diff = format!("{} ~~> {}", a.trim(), b.trim());
+                                    break;
+                                }
+                            }
+                        }
+                        rt_idem = match std::panic::catch_unwind(std::panic::AssertUnwindSafe(|| {
+                            sway_ir::parser::parse(&t2, ir.source_engine, ir.experimental, ir.backtrace)
+                        })) {
+                            Ok(Ok(ir3)) => if sway_ir::printer::to_string(&ir3) == t2 { "ok".into() } else { "differs".into() },
+                            Ok(Err(e)) => format!("{e}"),
+                            Err(_) => "panic".into(),
+                        };
+                        if let Some(d) = &dump {
+                            if t2 != text {
+                                let _ = std::fs::write(d.join(format!("{n:03}-{stage}-{}.reparsed.ir", pass.replace('/', "_"))), &t2);
+                            }
+                        }
                         ir2.verify_ssa_dominance = true;
                         let v = std::panic::catch_unwind(std::panic::AssertUnwindSafe(|| ir2.verify()));
                         ("ok".to_string(), t2 == text, match v { Ok(Ok(())) => "ok".to_string(), Ok(Err(e)) => format!("{e}"), Err(_) => "panic".to_string() })
@@ -235,6 +295,7 @@ fn main() {
                     "n": n, "stage": stage, "pass": pass, "modified": modified, "changed": changed,
                     "sha": hex::encode(&Sha256::digest(text.as_bytes())[..8]), "fns": nfns,
                     "rt_parse": rt_parse, "rt_same": rt_same, "rt_verify": rt_verify,
+                    "rt_norm": rt_norm, "rt_idem": rt_idem, "rt_diff": rt_diff,
                 }));
                 *prev = text;
             })));
